@@ -7,6 +7,8 @@ regenerated guard order of store.Store.Execute/Query/Request
 ErrNotLeader before any call that touches the local database or the Raft log.
 -/
 import RqModel.Model.Proxy
+import RqModel.Model.ClientPool
+import RqModel.Gen.ClientConns
 import RqModel.Gen.StoreGuards
 namespace C20
 open RqModel RqModel.Proxy
@@ -154,6 +156,84 @@ theorem forward_errors_reported (i : Input) (h : i.localOut = .notLeader) (hf : 
   constructor
   · intro ha; simp [hf, ha]
   · intro a ha hr; simp [hf, ha, hr]
+
+/-! ### the answer returned belongs to the request (pooled inter-node connections) -/
+
+open RqModel.ClientPool in
+/-- every pooled connection has nothing outstanding on it -/
+def Clean (st : ClientPool.PState) : Prop := ∀ c ∈ st.pool, c = []
+
+open RqModel.ClientPool in
+def answersOwn : List Op → List Res → Bool
+  | [], [] => true
+  | op :: ops, r :: rs => (r == .timeout || r == .ok op.tag) && answersOwn ops rs
+  | _, _ => false
+
+open RqModel.ClientPool in
+theorem doOp_clean (st : PState) (h : Clean st) (op : Op) :
+    ((doOp false st op).1 = .timeout ∨ (doOp false st op).1 = .ok op.tag) ∧ Clean (doOp false st op).2 := by
+  have hput : ∀ (rest : List (List Nat)), (∀ x ∈ rest, x = []) → ∀ x ∈ rest ++ [[]], x = [] := by
+    intro rest hr x hx
+    simp only [List.mem_append, List.mem_singleton] at hx
+    rcases hx with hx | hx
+    · exact hr x hx
+    · exact hx
+  unfold doOp
+  cases hp : st.pool with
+  | nil =>
+    simp only [attempt]
+    cases hs : op.slow <;> cases hb : op.broadcast <;> simp [attempt, hs, hb, putBack, Clean]
+  | cons c rest =>
+    have hc : c = [] := h c (by simp [hp])
+    have hrest : ∀ x ∈ rest, x = [] := fun x hx => h x (by simp [hp, hx])
+    subst hc
+    simp only [attempt]
+    cases hs : op.slow
+    · simp only [hs, Bool.false_eq_true, if_false, putBack]
+      exact ⟨by simp, hput rest hrest⟩
+    · cases hb : op.broadcast
+      · simp only [hs, hb, if_true, Bool.false_eq_true, if_false, putBack, attempt]
+        exact ⟨by simp, hrest⟩
+      · simp only [hs, hb, if_true, Bool.false_eq_true, if_false, putBack]
+        exact ⟨by simp, hrest⟩
+
+open RqModel.ClientPool in
+/-- ∀ sequences of forwarded requests (any mix of requests the leader answers in time
+and requests that time out), starting from a pool with nothing outstanding: every
+answer the client returns is the answer to the request it was returned for, or a
+timeout error — never the answer to another request. -/
+theorem responses_belong_to_requests (ops : List Op) :
+    ∀ st : PState, Clean st → answersOwn ops (runOps false st ops) = true := by
+  induction ops with
+  | nil => intro st _; rfl
+  | cons op ops ih =>
+    intro st h
+    obtain ⟨h1, h2⟩ := doOp_clean st h op
+    simp only [runOps, answersOwn, Bool.and_eq_true, Bool.or_eq_true, beq_iff_eq]
+    exact ⟨by rcases h1 with h1 | h1 <;> simp [h1], ih _ h2⟩
+
+open RqModel.ClientPool in
+/-- why discarding matters: if a timed-out connection went back to the pool, the next
+request would be handed the previous request's answer -/
+theorem keep_on_timeout_witness :
+    runOps true {} [⟨1, true, false⟩, ⟨2, false, false⟩, ⟨3, false, false⟩] = [.timeout, .ok 1, .ok 1] ∧
+    runOps true {} [⟨1, true, true⟩, ⟨2, false, false⟩] = [.timeout, .ok 1] := by decide
+
+/-- fact obligation: in cluster/client.go every error branch that follows a write to
+or a read from a pooled connection starts by marking the connection unusable, and
+`handleConnError` does so unconditionally. -/
+theorem client_discards_connection_on_any_error :
+    Gen.ClientConns.errorBranches.map (fun b => (b.1, b.2.1)) =
+      [("Backup", "writeCommand"), ("Backup", "readResponse"), ("RemoveNode", "writeCommand"),
+       ("RemoveNode", "readResponse"), ("Stepdown", "writeCommand"), ("Stepdown", "readResponse"),
+       ("Notify", "writeCommand"), ("Notify", "readResponse"), ("Join", "writeCommand"),
+       ("Join", "readResponse"), ("BroadcastHWM", "writeCommand"), ("BroadcastHWM", "readResponse"),
+       ("retry", "writeCommandReadResponse"), ("retry", "writeCommandReadResponse")] ∧
+    -- nothing stands between the i/o and its error test (in particular no conn.Close(), which
+    -- would hand the connection back to the pool before it is marked), and the branch marks first
+    Gen.ClientConns.errorBranches.all (fun b => b.2.2.1 == [] && b.2.2.2 == "handleConnError(conn)") = true ∧
+    Gen.ClientConns.handleConnErrorBody = ["if pc, ok := conn.(*pool.Conn); ok { pc.MarkUnusable() }"] := by
+  decide
 
 /-! ### non-vacuity -/
 def exForward : Input where
